@@ -5,7 +5,4 @@ CONSTANTS
   MaxBS = 4
   ResetForgetsMarks = TRUE
 INVARIANT PicksDistinct
-INVARIANT PicksAreCandidates
-INVARIANT NaNExactlyAtUnavailable
-INVARIANT FarthestFirst
 CHECK_DEADLOCK FALSE
